@@ -239,11 +239,14 @@ Print Assumptions import_ext_mux_abs.
    placeholder node takes none), in file order, each read with `attr_value` under the imported definition and kept
    when it conforms, a later line of the same attribute replacing the earlier one (`assign`); the user assignments
    of an imported message are, in the same way, the BA_ BO_ lines with its CAN-ID whose attribute is not a
-   well-known one (those set the dedicated fields: import_message_fields) *)
+   well-known one; the four dedicated fields of the message (cycle, delay, start-delay time, send type:
+   `mfields`) start at 0 and are set by the lines with its CAN-ID and the well-known names, integer values for the
+   times, the label for the send type (`msg_send_type_from_dbc`), the last such line winning (`fld_step`) *)
 Theorem import_node_message_attributes_exact : forall d b, import d = Ok b ->
   exists amap, def_map d = Ok amap /\
     Forall (fun n => n_attrs n = fold_left (node_step amap (n_name n)) (d_attrvals d) []) (b_nodes b) /\
-    Forall (fun m => m_attrs m = fold_left (msg_step amap (m_canid m)) (d_attrvals d) []) (b_messages b).
+    Forall (fun m => m_attrs m = fold_left (msg_step amap (m_canid m)) (d_attrvals d) [] /\
+                     mfields m = fold_left (fld_step amap (m_canid m)) (d_attrvals d) (0, 0, 0, 0)) (b_messages b).
 Proof. exact ProofsAttrsExact.import_node_message_attributes_exact. Qed.
 Print Assumptions import_node_message_attributes_exact.
 
